@@ -250,7 +250,7 @@ class System:
 
     serial = 0
 
-    def __init__(self, deferred=False):
+    def __init__(self, deferred=False, validate=True):
         from sdc11073.provider import subscriptionmgr_base
         from verif.mdibharness import Projector
         from verif.pair import Pair
@@ -258,7 +258,7 @@ class System:
         DET_UUID.counter = 0
         install_resolver_spy()
         self.deferred = deferred
-        self.pair = Pair(deferred_dispatch=deferred)
+        self.pair = Pair(deferred_dispatch=deferred, validate=validate)
         # identifiers of subscriptions made later are unique over all systems of this process
         System.serial += 1
         DET_UUID.counter = System.serial * 1000000
@@ -1066,12 +1066,13 @@ class Executor:
         """'sync': consumer dispatches notifications in the calling thread; 'deferred': the consumer's default
         DispatchKeyRegistryDeferred (queue + worker thread)."""
         if key not in self.systems:
-            self.systems[key] = System(key == 'deferred')
+            # 'lenient': provider and consumer created with validate=False (schema validation switched off)
+            self.systems[key] = System(key == 'deferred', validate=key != 'lenient')
         self.current = key
 
     def rebuild(self):
         self.sysm.stop()
-        self.systems[self.current] = System(self.current == 'deferred')
+        self.systems[self.current] = System(self.current == 'deferred', validate=self.current != 'lenient')
         self.rebuilds += 1
         self.state_cache = {k: v for k, v in self.state_cache.items() if k[0] != self.current}
 
@@ -1150,7 +1151,8 @@ class Executor:
 
     def execute(self, tpl: Template, case: dict, conc: Concrete, v: int = 0) -> dict:
         """Run one concrete request; return the `actual` record."""
-        self.select('deferred' if tpl.endpoint == 'consumer' and v % 2 == 1 else 'sync')
+        self.select('lenient' if case.get('lenient') else
+                    'deferred' if tpl.endpoint == 'consumer' and v % 2 == 1 else 'sync')
         sysm = self.sysm
         endpoint = tpl.endpoint
         before = self.state(endpoint)
